@@ -94,6 +94,15 @@ func exec(c *container.Container, o op) (r res) {
 	case "AppendContainerAsBlock":
 		c.AppendContainerAsBlock(container.New(parts(o.Parts)...))
 		return okNone()
+	case "AppendUsedContainer", "AppendUsedContainerAsBlock":
+		src := container.New(parts(o.Parts)...)
+		_, _ = src.Get(o.N) // consume the first bytes of the source (fails and consumes nothing if it is shorter)
+		if o.Op == "AppendUsedContainer" {
+			c.AppendContainer(src)
+		} else {
+			c.AppendContainerAsBlock(src)
+		}
+		return okNone()
 	case "Replace":
 		c.Replace(vio.Bytes(o.B))
 		return okNone()
